@@ -1,7 +1,7 @@
 (* C17 correspondence evaluator: runs the disk model (both zero-fill variants) and the specification on a harness
    case and reports the first operation whose answer differs from what the implementation answered. *)
 From Coq Require Import NArith List Bool.
-From OG Require Import C17.Model.
+From OG Require Import C17.Model C17.Bytes.
 Import ListNotations.
 Open Scope N_scope.
 
@@ -54,7 +54,30 @@ Definition ent (i t y l g : N) : entry := mkent i t y (mkpay l g).
 Inductive cop :=
 | Plain (o : sop) (want : result)
 | Faulty (es : list entry) (h : option hardstate) (s : option snapshot) (ft : fault) (rep : bool) (ff fl fsum : N)
-         (want : result).
+         (want : result)
+(* raw bytes read from the directory: for entry file number [fi] (ordered by first index, empty files last) the slot records
+   [st, st+n) as they lie in the file (eight bytes at a time as big-endian words), and the length words of the cells of the live ones among them; the hard state record
+   at offset 512 and the two words at offset 1024 of raft.meta *)
+| RawBytes (wins : list (nat * nat * nat * list N * list N)) (hsrec : list N) (snaphdr : list N).
+
+Definition window_bytes (f : file) (st n : nat) : list N :=
+  concat (map (fun p => slot_bytes (slot_at f (N.of_nat p))) (seq st n)).
+(* the same bytes taken eight at a time as big-endian words (what the harness prints): the four fields of each slot *)
+Definition slot_words (s : slotrec) : list N := [s_term_ s; s_index s; s_type s; s_off s].
+Definition window_words (f : file) (st n : nat) : list N :=
+  concat (map (fun p => slot_words (slot_at f (N.of_nat p))) (seq st n)).
+Definition window_lens (f : file) (st n : nat) : list N :=
+  flat_map (fun p => let r := row_at f (N.of_nat p) in if s_index (r_slot r) =? 0 then [] else [c_lenw (r_cell r)]) (seq st n).
+
+Definition check_bytes (d : disk) (wins : list (nat * nat * nat * list N * list N)) (hsrec snaphdr : list N) : bool :=
+  let files := d_files d ++ [d_cur d] in
+  forallb (fun w => let '(fi, st, n, bytes, lens) := w in
+                    match nth_error files fi with
+                    | Some f => list_eqb N.eqb (window_words f st n) bytes && list_eqb N.eqb (window_lens f st n) lens
+                    | None => false
+                    end) wins
+  && list_eqb N.eqb (hs_record (m_hs (d_meta d))) hsrec
+  && list_eqb N.eqb (snap_header (m_snap (d_meta d))) snaphdr.
 
 Fixpoint check_disk (v : variant) (P : params) (i : nat) (d : disk) (ops : list cop) : option nat :=
   match ops with
@@ -74,6 +97,8 @@ Fixpoint check_disk (v : variant) (P : params) (i : nat) (d : disk) (ops : list 
       else
         if rep then Some i else
         if result_eqb (dres P d1 Ok [] 0 None) want then check_disk v P (S i) d1 r else Some i
+  | RawBytes wins hsrec snaphdr :: r =>
+      if check_bytes d wins hsrec snaphdr then check_disk v P (S i) d r else Some i
   end.
 
 (* the specification is told the first index the implementation reported after the operation (its compaction choice);
@@ -81,8 +106,10 @@ Fixpoint check_disk (v : variant) (P : params) (i : nat) (d : disk) (ops : list 
 Fixpoint check_spec (i : nat) (a : alog) (ops : list cop) : option nat :=
   match ops with
   | [] => None
+  | RawBytes _ _ _ :: r => check_spec (S i) a r
   | c :: r =>
-      let '(o, want) := match c with Plain o w => (o, w) | Faulty es h s _ _ _ _ _ w => (Save es h s, w) end in
+      let '(o, want) := match c with Plain o w => (o, w) | Faulty es h s _ _ _ _ _ w => (Save es h s, w)
+                                     | RawBytes _ _ _ => (GetMeta, mkres Ok 0 0 [] 0 None) end in
       let '(a', got) := step_spec o (r_first want) a in
       if result_eqb got want then check_spec (S i) a' r else Some i
   end.
@@ -98,3 +125,13 @@ Definition run_case (P : params) (ops : list cop) : N * N * N * N :=
    code (check_spec 0 empty_alog ops)).
 
 Definition run_cases (P : params) (cs : list (list cop)) : list (N * N * N * N) := map (run_case P) cs.
+
+(* the words compared by check_bytes are the file bytes: the bytes of a window are the big-endian encodings of its words *)
+Lemma window_bytes_words : forall f st n, window_bytes f st n = flat_map (be_enc 8) (window_words f st n).
+Proof.
+  intros f st n. unfold window_bytes, window_words. generalize st. induction n as [|n IH]; intro s0; [reflexivity|].
+  cbn [seq map concat]. rewrite flat_map_app, <- IH.
+  assert (E : slot_bytes (slot_at f (N.of_nat s0)) = flat_map (be_enc 8) (slot_words (slot_at f (N.of_nat s0)))).
+  { unfold slot_bytes, slot_words. cbn [flat_map]. now rewrite app_nil_r. }
+  now rewrite E.
+Qed.
